@@ -227,6 +227,24 @@ fn base(seed: u64, r: &mut Rng, max_len: usize, max_depth: usize, srcs: &[Src]) 
         pre: 0,
     };
     gen_params(r, &mut scn);
+    // one scenario in twelve is set up so that the runner hands different chunk sizes to different workers:
+    // a source of known length, ChunkSize::Min(small) or Auto, six or more threads, and a schedule in which the
+    // first workers make progress during the spawner's lag and the late workers (with their grown chunks) go first
+    if r.chance(1, 12) && !scn.src.is_collection() && srcs.iter().any(|s| s.known_len()) {
+        if !scn.src.known_len() {
+            scn.src = *r.pick(&[Src::Vec, Src::SliceCloned, Src::Range, Src::IterExact]);
+        }
+        scn.nt = vec![(0, *r.pick(&[6usize, 8, 9, 12, 16, 0]))];
+        scn.avail = r.range(8, 32);
+        scn.cs = if r.chance(1, 4) { vec![] } else { vec![(0, Chunk::Min(r.range(1, 4)))] };
+        if scn.vals.len() < 40 && max_len >= 160 {
+            let n = r.range(40, 160);
+            scn.vals = gen_vals(r, n);
+        }
+        scn.policy = Policy::GrowLate(*r.pick(&[8u8, 16, 32, 64, 128]));
+        scn.noise = *r.pick(&[0u8, 5, 20]);
+        scn.starve_release = 0;
+    }
     scn
 }
 
